@@ -84,6 +84,12 @@ def audit(R, pid, budget_s=2.0):
         n_fn += 1
         n_exec += stats["ran"]
         if w is not None and not any(v["key"].startswith("K." + q.replace("pyvolutionary.", "")) for v in R.violations):
-            R.machinery.append(f"audit: {q} is proved but a real execution violates clause '{w['failed'].get('label')}' on {w['recipe']}")
+            # A real execution of the real function violates a clause of its contract: a failing input, whatever the proof
+            # status (the function may have been verified against the contract of a callee whose own obligations are now
+            # open - modular proofs are only as good as every contract on the path).
+            R.violation(f"K.{q.replace('pyvolutionary.', '')}",
+                        f"contract of {q} fails on the real code (found by the run-time audit): {w['failed'].get('clause', '')[:200]}",
+                        {"replay_kind": "witness", "witness": w, "note": "obligations of this function were discharged against its callees' "
+                         "contracts; the failing input shows that a contract on the path no longer holds"})
     R.extra["audit"] = {"functions_executed": n_fn, "real_executions": n_exec,
                         "rule": "small-scope inputs by parameter type, clauses evaluated by CPython on the real function"}
